@@ -12,8 +12,16 @@ Property C04 — minimal image is the unique smallest quotient; automorphisms ar
 
 Property theorems only.  They speak about the executable model `DSymVerif.Mor.*`
 (Model/Morphism.lean: `morphism` — the function after the `fix:` commit for defect D3 —,
-`automorphisms`, `fold`, `isMinimal`; tied to src/dsets.rs by the differential check) for
-ALL views `MV` (size, dim, `op`, adjacent degrees `m`), no bound on the size.
+`automorphisms`, `foldUF`, `isMinimalUF`, `minimalImage`; tied to src/dsets.rs, src/derived.rs by
+the differential check) for ALL views `MV` (size, dim, `op`, adjacent degrees `m`), no bound on
+the size.  `Partition<usize>` is the exact union–find model of property C20 (`UF` =
+`Part.GPart`: interning, path compression, union by rank, the code's representatives);
+`minimalImage` is defined on it.  Sections 4–6 are stated on the abstract class-table
+semantics (`Part`, `fold`, `isMinimal`, `foldAll`); section 13 proves for ALL inputs that the
+union–find functions simulate it (`fold_uf_simulates`, `is_minimal_uf_eq`,
+`minimal_partition_uf`), so every statement of sections 4–6 is a statement about the functions
+that are compared with the code, and no observable depends on which representative `find`
+returns beyond what the model computes exactly.
 
 Vocabulary (definitions in Proofs/Morphism*.lean, namespace `DSymVerif.Mor`):
   `gv f d`          entry d of a returned vector, 0 = unassigned
@@ -23,7 +31,10 @@ Vocabulary (definitions in Proofs/Morphism*.lean, namespace `DSymVerif.Mor`):
   `IsMor a b g`     g commutes with every operation and preserves every degree on 1..|a|
   `InRange a b g`   g maps 1..|a| into 1..|b|
   `OpClosed s c`, `DegResp s c`   the class function c : Nat → Nat is a congruence / respects degrees
-  `Part`, `p.find`                the model's class table of a `Partition<usize>` and its class function
+  `Part`, `p.find`                class table of a `Partition<usize>` and its class function (abstract semantics)
+  `UF`, `ufFind`, `ufUnite`       the union–find of partitions.rs (C20 model) as `fold`/`minimal_image` use it
+  `grep g x`                      the representative `find` answers for key x (C20, Proofs/PartitionGen.lean)
+  `Sim g p`                       `g` is a well-formed union–find (C20 `GWF`) with the classes of the table `p`
 All four structural hypotheses hold for the model's view of every D-symbol whose stored table
 is a complete family of involutions (`view_hypotheses`), and `Connected` is what the property
 quantifies over.
@@ -681,5 +692,175 @@ example := driver_decoding_agrees rawTwo (by decide +kernel)
 example := driver_minimg_case rawTwo (by decide +kernel)
 example : (DrvC04View.specS rawTwo).valid = true := by decide +kernel
 example := spec_refinement_correct (DrvC04View.specS rawTwo) (by decide +kernel)
+
+/-! ## 13. `Partition<usize>` exactly: the union–find of partitions.rs under `fold`, `is_minimal`, `minimal_image`
+
+The functions compared with the code (`foldUF`, `isMinimalUF`, `foldAllUF`, `numberLoopUF`,
+`minimalImage`) run on the union–find model of property C20 — `find` with interning and path
+compression, union by rank, the representative the code returns.  For ALL inputs (no validity
+hypothesis on the D-set, any partition reached so far) they give the answers of the class-table
+semantics of sections 4–6 and a partition with the same classes; this replaces the former prose
+argument that observables do not depend on the choice of representative. -/
+
+section
+open DSymVerif.PartP (GWF grep)
+
+/-- `Partition::new()`: well formed, every key its own class -/
+theorem uf_new_sim : Sim UF.new Part.new ∧ ∀ z, grep UF.new z = z := ⟨Sim.new, grep_new⟩
+
+/-- `p.find(&a)` on a union–find with the classes of `p`: returns (no panic, the root walk
+    terminates) the representative `grep g a`, which is a member of the class of `a` and is its
+    own representative; the new state (interning, path compression) has the same representatives -/
+theorem uf_find_spec {g : UF} {p : Part} (h : Sim g p) (a : Nat) :
+    ∃ g', ufFind g a = .ok (g', grep g a) ∧ Sim g' p ∧ (∀ z, grep g' z = grep g z) ∧
+      p (grep g a) = p a ∧ grep g (grep g a) = grep g a := by
+  obtain ⟨g', h1, h2, h3⟩ := h.find a
+  exact ⟨g', h1, h2, h3, (h.ker _ _).1 (DSymVerif.PartP.grep_idem h.wf a),
+    DSymVerif.PartP.grep_idem h.wf a⟩
+
+/-- `p.unite(&a, &b)`: returns (no panic) a union–find with the classes of the relabelled table -/
+theorem uf_unite_spec {g : UF} {p : Part} (h : Sim g p) (a b : Nat) :
+    ∃ g', ufUnite g a b = .ok g' ∧ Sim g' (p.unite a b) := h.unite a b
+
+/-- **fold_uf_simulates**: `fold` on the union–find answers `Some` / `None` / (never, see
+    `fold_some_iff`) panic exactly as `fold` on the class table does, and the returned partitions
+    have the same classes — for every view `s`, every partition and every pair, valid or not -/
+theorem fold_uf_simulates (s : MV) {g : UF} {p : Part} (h : Sim g p) (d e : Nat) :
+    (∀ q, fold s p d e = .ok q → ∃ g', foldUF s g d e = .ok g' ∧ Sim g' q) ∧
+    (fold s p d e = .err → foldUF s g d e = .err) ∧
+    (fold s p d e = .panic → foldUF s g d e = .panic) := by
+  have hs := foldUF_sim s h d e
+  refine ⟨fun q hq => ?_, fun hq => ?_, fun hq => ?_⟩
+  · rw [hq] at hs; exact hs.ok_right
+  · rw [hq] at hs; exact hs.err_right
+  · rw [hq] at hs; exact hs.panic_right
+
+example : ∃ g', foldUF Mor.ex2 UF.new 1 2 = .ok g' := by
+  have hok : (fold Mor.ex2 Part.new 1 2).isOk = true := by decide
+  cases h : fold Mor.ex2 Part.new 1 2 with
+  | ok q => obtain ⟨g', hg, _⟩ := (fold_uf_simulates Mor.ex2 Sim.new 1 2).1 q h; exact ⟨g', hg⟩
+  | err => rw [h] at hok; cases hok
+  | panic => rw [h] at hok; cases hok
+
+/-- `fold` on the union–find, in its own terms: on a partition `g0` that is a degree-respecting
+    congruence it answers `Some(g)` exactly when some degree-respecting congruence contains `g0`
+    and the pair, it never panics, and `g` is then the LEAST operation-closed partition containing
+    `g0` and the pair — same representative ⇔ same class of the generated congruence -/
+theorem fold_uf_some_iff (s : MV) (hr : OpRange s) (hc : Complete s s.dim) {g0 : UF} {p0 : Part}
+    (h0 : Sim g0 p0) (hp0 : OpClosed s (grep g0)) (hp0d : DegResp s (grep g0)) (d e : Nat)
+    (hd1 : 1 ≤ d) (hd2 : d ≤ s.size) (he1 : 1 ≤ e) (he2 : e ≤ s.size) :
+    foldUF s g0 d e ≠ .panic ∧
+    ((∃ g, foldUF s g0 d e = .ok g) ↔
+      ∃ c : Nat → Nat, OpClosed s c ∧ DegResp s c ∧ (∀ x y, grep g0 x = grep g0 y → c x = c y) ∧ c d = c e) ∧
+    ∀ g, foldUF s g0 d e = .ok g →
+      GWF g ∧ (∀ x y, grep g0 x = grep g0 y → grep g x = grep g y) ∧ grep g d = grep g e ∧
+      OpClosed s (grep g) ∧ DegResp s (grep g) ∧
+      ∀ c : Nat → Nat, OpClosed s c → (∀ x y, grep g0 x = grep g0 y → c x = c y) → c d = c e →
+        ∀ x y, grep g x = grep g y → c x = c y := by
+  have cl0 : OpClosed s p0.find := fun x y hx1 hx2 hy1 hy2 hxy i hi xi yi hxi hyi =>
+    (h0.ker _ _).1 (hp0 x y hx1 hx2 hy1 hy2 ((h0.ker _ _).2 hxy) i hi xi yi hxi hyi)
+  have dg0 : DegResp s p0.find := fun x y hxy => hp0d x y ((h0.ker _ _).2 hxy)
+  have sim := fold_uf_simulates s h0 d e
+  have hiff := fold_some_iff s hr hc p0 cl0 dg0 d e hd1 hd2 he1 he2
+  have np := fold_no_panic s hr p0 d e hd1 hd2 he1 he2
+  refine ⟨fun hp => ?_, ⟨fun ⟨g, hg⟩ => ?_, fun ⟨c, hcc, hcd, hc0, hcde⟩ => ?_⟩, fun g hg => ?_⟩
+  · cases hf : fold s p0 d e with
+    | ok q => obtain ⟨g', hg', _⟩ := sim.1 q hf; rw [hg'] at hp; cases hp
+    | err => rw [sim.2.1 hf] at hp; cases hp
+    | panic => exact np hf
+  · cases hf : fold s p0 d e with
+    | ok q =>
+      obtain ⟨c, h1, h2, h3, h4⟩ := hiff.1 ⟨q, hf⟩
+      exact ⟨c, h1, h2, fun x y hxy => h3 x y ((h0.ker _ _).1 hxy), h4⟩
+    | err => rw [sim.2.1 hf] at hg; cases hg
+    | panic => exact (np hf).elim
+  · obtain ⟨q, hq⟩ := hiff.2 ⟨c, hcc, hcd, fun x y hxy => hc0 x y ((h0.ker _ _).2 hxy), hcde⟩
+    obtain ⟨g, hg, _⟩ := sim.1 q hq
+    exact ⟨g, hg⟩
+  · cases hf : fold s p0 d e with
+    | ok q =>
+      obtain ⟨g', hg', hsim⟩ := sim.1 q hf
+      rw [hg] at hg'; cases hg'
+      obtain ⟨hincl, hde, hcl, hdg⟩ := fold_congruence s hr hc p0 q d e hd1 hd2 he1 he2 hf
+      refine ⟨hsim.wf, fun x y hxy => (hsim.ker _ _).2 (hincl x y ((h0.ker _ _).1 hxy)),
+        (hsim.ker _ _).2 hde, ?_, ?_, fun c hcc hc0 hcde x y hxy => ?_⟩
+      · intro x y hx1 hx2 hy1 hy2 hxy i hi xi yi hxi hyi
+        exact (hsim.ker _ _).2 (hcl cl0 x y hx1 hx2 hy1 hy2 ((hsim.ker _ _).1 hxy) i hi xi yi hxi hyi)
+      · intro x y hxy
+        exact hdg dg0 x y ((hsim.ker _ _).1 hxy)
+      · exact fold_least s hr p0 q c d e hd1 hd2 he1 he2 hcc
+          (fun x y hxy => hc0 x y ((h0.ker _ _).2 hxy)) hcde hf x y ((hsim.ker _ _).1 hxy)
+    | err => rw [sim.2.1 hf] at hg; cases hg
+    | panic => exact (np hf).elim
+
+example := fold_uf_some_iff Mor.ex2 ex2_opRange ex2_complete Sim.new
+  (fun x y hx1 hx2 hy1 hy2 hxy i hi xi yi hxi hyi => by
+    rw [grep_new] at hxy ⊢; rw [grep_new]; subst hxy; rw [hxi] at hyi; exact Option.some.inj hyi)
+  (fun x y hxy => by rw [grep_new, grep_new] at hxy; subst hxy; exact degreesMatch_refl _ _)
+  1 2 (by decide) (by decide) (by decide) (by decide)
+
+/-- **is_minimal_uf_eq**: `is_minimal()` on the union–find is `is_minimal()` on the class table —
+    the same Boolean (or panic) for every view; `is_minimal_iff`,
+    `is_minimal_iff_no_proper_quotient`, `is_minimal_iff_class_count` are statements about it -/
+theorem is_minimal_uf_eq (s : MV) : isMinimalUF s = isMinimal s := isMinimalUF_eq s
+
+example : isMinimalUF Mor.ex2 = .ok false := by decide
+example : isMinimalUF d3 = .ok true := by decide
+
+/-- the count form, on the function that is compared with the code -/
+theorem is_minimal_uf_iff_class_count (ds : DSymData) (hs : ValidSym ds) (hsz : 1 ≤ ds.size)
+    (hdim : 1 ≤ ds.dim) (hconn : ds.view.isConnected = true) :
+    ∃ c, minimalImage ds = .ok c ∧ (isMinimalUF (ofSym ds) = .ok true ↔ c.size = ds.size) := by
+  rw [is_minimal_uf_eq]
+  exact is_minimal_iff_class_count ds hs hsz hdim hconn
+
+example := is_minimal_uf_iff_class_count two two_valid (by decide) (by decide) two_connected
+
+/-- **minimal_partition_uf**: the union–find from which `minimal_image` builds its quotient,
+    `(2..=size).fold(Partition::new(), |p, d| ds.fold(&p, 1, d).unwrap_or(p))`, is computed without
+    panic; it is well formed, has the classes of the class-table partition of
+    `minimal_partition_coarsest` — so "same representative" is the COARSEST degree-respecting
+    congruence of a connected symbol — and the representative of a chamber is a chamber -/
+theorem minimal_partition_uf (s : MV) (hr : OpRange s) (hc : Complete s s.dim)
+    (hinv : Invol s) (hconn : Connected s) (h1 : 1 ≤ s.size) :
+    ∃ g q, foldAllUF s (s.elements.drop 1) UF.new = .ok g ∧
+      foldAll s (s.elements.drop 1) Part.new = .ok q ∧ Sim g q ∧
+      (∀ x, 1 ≤ x → x ≤ s.size → 1 ≤ grep g x ∧ grep g x ≤ s.size) ∧
+      OpClosed s (grep g) ∧ DegResp s (grep g) ∧
+      ∀ c : Nat → Nat, OpClosed s c → DegResp s c →
+        ∀ x y, 1 ≤ x → x ≤ s.size → 1 ≤ y → y ≤ s.size → c x = c y → grep g x = grep g y := by
+  obtain ⟨q, hq, hcl, hdg, hmax⟩ := minimal_partition_coarsest s hr hc hinv hconn h1
+  have hsim := foldAllUF_sim s (s.elements.drop 1) UF.new Part.new Sim.new
+  rw [hq] at hsim
+  obtain ⟨g, hg, hgq⟩ := hsim.ok_right
+  have hds : ∀ d, d ∈ s.elements.drop 1 → InR s d := fun d hd => by
+    have := (mem_elements_drop s d).1 hd
+    exact ⟨by omega, this.2⟩
+  obtain ⟨_, hgr⟩ := foldAllUF_range s hr h1 _ UF.new g hds DSymVerif.PartP.gwf_new (GR.new _) hg
+  refine ⟨g, q, hg, hq, hgq, fun x hx1 hx2 => hgr x ⟨hx1, hx2⟩, ?_, ?_, ?_⟩
+  · intro x y hx1 hx2 hy1 hy2 hxy i hi xi yi hxi hyi
+    exact (hgq.ker _ _).2 (hcl x y hx1 hx2 hy1 hy2 ((hgq.ker _ _).1 hxy) i hi xi yi hxi hyi)
+  · intro x y hxy
+    exact hdg x y ((hgq.ker _ _).1 hxy)
+  · intro c hcc hcd x y hx1 hx2 hy1 hy2 hxy
+    exact (hgq.ker _ _).2 (hmax c hcc hcd x y hx1 hx2 hy1 hy2 hxy)
+
+example := minimal_partition_uf Mor.ex2 ex2_opRange ex2_complete ex2_invol ex2_connected (by decide)
+
+/-- **number_loop_uf_eq**: the numbering loop of `minimal_image` reads the union–find through `find`
+    only: on a well-formed union–find it is the numbering loop on the table
+    `x ↦ find(x)` (x = 0..n) of its representatives, whatever path compression does in between.
+    (`minimal_image_spec` is proved through this: `src2img` numbers the classes in order of first
+    occurrence, `img2src` holds the code's representative of each class.) -/
+theorem number_loop_uf_eq (n : Nat) (ds : List Nat) (g : UF) (st : NumState) (wf : GWF g)
+    (hds : ∀ d, d ∈ ds → d ≤ n) :
+    numberLoopUF g ds st = numberLoop (tableOf n (grep g)) ds st :=
+  numberLoopUF_eq n ds g g st wf (fun _ => rfl) hds
+
+example := number_loop_uf_eq 2 [1, 2] UF.new
+  { src2img := Array.replicate 3 0, img2src := Array.replicate 3 0, next := 1 }
+  DSymVerif.PartP.gwf_new (by decide)
+
+end
 
 end DSymVerif.C04
